@@ -15,6 +15,62 @@ CLAIMED = {
         'all theorems closed under the global context. StreamReader end-of-stream CR is outside the statement.',
    design='§7 C16'),
 }
+COMMON_NOTE = ('Trusted: Coq 8.16.1 kernel (no native_compute), translator gen_tftp.py (constants, decision expressions, canonical '
+               'hashes of hand-modelled methods), ExtrOcamlBasic extraction + runner/driver.ml, harness fake sockets / virtual clock, CPython. '
+               'All property theorems closed under the global context. ')
+CLAIMED.update({
+ 'C20': dict(
+   technique='Coq proof of parse(serialize p)=p, case folding and wire format over an executable packet model + differential correspondence',
+   text='Six theorems over a hand-written model of all six packet classes (serialiser, parser with the two regexes as explicit scanners, '
+        'UTF-8 / ASCII decoding, dict semantics): round trip for every packet value in normal form, case folding for any letter case, wire '
+        'format; tied to tftp.py by regenerated constants/regex text and by differential testing of Packet.from_bytes / bytes(packet) '
+        'on thousands of structured and hostile datagrams, plus an independent wire decoder.',
+   note=COMMON_NOTE + 'Second direction (parse d = p => parse(serialize p) = p for arbitrary datagrams) is checked by correspondence/oracle only.',
+   design='§7 C20'),
+ 'C01': dict(
+   technique='Coq inductive invariant over all schedules (data_sound) + RFC client refinement + differential correspondence under an adversarial network',
+   text='Theorems: for every file, block size >= 1 and EVERY event list (datagrams from any endpoint, ticks) every DATA k ever emitted carries '
+        'bytes [(k-1)B,kB) with 1<=k<=65535; only the last block is short; an RFC 1350 client fed any selection/reordering/duplication of '
+        'such packets plus arbitrary foreign ones reconstructs exactly the file; a file needing more than 65535 blocks is never reported '
+        'complete and ACK 65535 is answered by ERROR. Model tied to tftpd.py by regenerated comparisons and by replaying seeded adversarial '
+        'sessions (incl. the 65535-block boundary) on the real handler classes and the extracted model, comparing every datagram and state.',
+   note=COMMON_NOTE + 'Not proved: liveness under loss (server gives up, C09). Modelled not verified: UDP, socketserver, buffered read returning full blocks.',
+   design='§7 C01'),
+ 'C05': dict(
+   technique='Coq case analysis over the handler ladders (total functions) + differential fuzzing of the real handlers',
+   text='Theorems: every reply on a transfer port (any state, datagram, source) and every retransmission is a DATA with legal block or an ERROR '
+        'with known code and ASCII text (serialisable); whatever the listening port sends is an ERROR; non-RRQ datagrams start nothing; WRQ '
+        'refused; foreign endpoints change nothing; malformed datagrams change only the clocks. Tie: canonical hashes of the modelled ladders, '
+        'thousands of hostile datagrams into the real handlers vs the extracted model, independent reply grammar, control transfer afterwards.',
+   note=COMMON_NOTE + 'Totality in the model is Gallina termination; real thread liveness and socketserver.handle_error are runtime residue.',
+   design='§7 C05'),
+ 'C07': dict(
+   technique='Coq frame/projection theorems over the transfer registry + in-process interleavings + real threaded UDP tier',
+   text='Theorems (bookkeeping logic, any number of transfers, every interleaving): events for transfer a leave b untouched; the projection of a '
+        'global run on a equals a solo run, so C01 applies to each; accepting a request never alters a running transfer. Tie: 2-6 real '
+        'in-process transfers under seeded interleavings vs the extracted model; runtime tier with real threads and loopback UDP '
+        '(stalling / vanishing / erroring clients, latency of a fresh request).',
+   note=COMMON_NOTE + 'PARTIAL by nature: pre-emptive interleaving inside handlers, the GIL, lock contention and OS ports are not modelled; only observed by the real-UDP tier.',
+   design='§7 C07'),
+ 'C08': dict(
+   technique='Coq proof over a staged model of negotiate (names, values, ranges) + exhaustive subsets/orders differential check',
+   text='Theorems: acknowledged names are an order-preserving selection of the supported names sent; negotiate changes only block size and '
+        'timeout; blksize = min(65464, requested) >= 8 and is acknowledged as used; timeout within [10ms,255s]; tsize exact; no surviving option '
+        '=> DATA 1 with 512-byte blocks; failures refuse. Tie: every subset and order of the four options, listed boundary values, random '
+        'mixtures, both modes, through the real handlers vs the extracted model and vs an independent statement-level oracle incl. '
+        'retransmission timing on a virtual clock.',
+   note=COMMON_NOTE + 'float(str) is not modelled: the model takes int(float(v)*1e9) as an input and the theorems quantify over it.',
+   design='§7 C08'),
+ 'C09': dict(
+   technique='Coq proof over the timeout state machine and registry + virtual-clock differential check + real-server resource accounting',
+   text='Theorems: after more than six timeouts of silence the next tick marks the transfer done (any timeout, any silence point); nothing is '
+        're-sent before one timeout has passed since the last send and last datagram, and the unacknowledged block is re-sent at the first tick '
+        'after; client ERROR / completion / server error end the transfer; the reaper removes exactly finished transfers; closing empties the '
+        'registry; refusals register nothing. Tie: silence/ERROR/garbage scenarios on a virtual clock vs the extracted model; real threaded '
+        'server: threads, descriptors and registry back to baseline after completed, abandoned, errored and refused requests and after close.',
+   note=COMMON_NOTE + 'PARTIAL: real thread join, socket close and finalisation of refused requests are runtime residue observed by the real-UDP tier.',
+   design='§7 C09'),
+})
 NOT_YET = {}
 
 def main():
